@@ -91,6 +91,7 @@ type Lemma struct {
 	Props  []string
 	Induct string // variable for induction (int, base 0) or ""
 	Uses   []string
+	Trigger []*Expr
 }
 
 type FieldClass struct {
@@ -115,7 +116,7 @@ var clauseKeywords = map[string]bool{
 	"func": true, "extern": true, "iface": true, "pure": true, "rec": true, "axiom": true, "property": true,
 	"requires": true, "ensures": true, "assigns": true, "loop": true, "invariant": true, "decreases": true,
 	"at": true, "ghost": true, "inline": true, "trusted": true, "lemma": true, "hyp": true, "concl": true,
-	"guarded": true, "owned": true, "immutable": true, "atomic": true, "opt": true, "uses": true, "induction": true, "nobody": true,
+	"guarded": true, "owned": true, "immutable": true, "atomic": true, "opt": true, "uses": true, "induction": true, "nobody": true, "trigger": true,
 }
 
 func ParseContracts(paths ...string) (*Contracts, error) {
@@ -300,6 +301,17 @@ func (cs *Contracts) parseFile(path string) error {
 				curLemma.Hyps = append(curLemma.Hyps, c)
 			} else {
 				curLemma.Concl = append(curLemma.Concl, c)
+			}
+		case "trigger":
+			if curLemma == nil {
+				return fail("trigger outside lemma")
+			}
+			for _, p := range splitTop(rest, ',') {
+				ex, err := ParseExpr(strings.TrimSpace(p))
+				if err != nil {
+					return fail("trigger: %v", err)
+				}
+				curLemma.Trigger = append(curLemma.Trigger, ex)
 			}
 		case "induction":
 			if curLemma == nil {
